@@ -208,6 +208,7 @@ fn opts_json(o: &HtmlOpts) -> Value {
         "context": o.context.as_ref().map(|c| json!({"ns": c.0, "local": c.1, "attrs": c.2})),
         "context_allows_scripting": o.context_allows_scripting,
         "allow_shadow": o.allow_shadow,
+        "fragment_form": o.fragment_form,
     })
 }
 
@@ -228,6 +229,7 @@ pub fn opts_from_json(v: &Value) -> HtmlOpts {
     o.tok.profile = v["profile"].as_bool().unwrap_or(false);
     o.context_allows_scripting = v["context_allows_scripting"].as_bool().unwrap_or(true);
     o.allow_shadow = v["allow_shadow"].as_bool().unwrap_or(false);
+    o.fragment_form = v["fragment_form"].as_bool().unwrap_or(false);
     if let Some(c) = v.get("context").filter(|c| !c.is_null()) {
         let attrs = c["attrs"]
             .as_array()
@@ -530,6 +532,7 @@ pub fn run(args: &Args) -> (Meta, Stats) {
             opts.scripting = !rng.chance(1, 3);
             if rng.chance(1, 4) {
                 opts.context = Some(rng.pick(&contexts).clone());
+                opts.fragment_form = rng.chance(1, 4);
             }
             opts.tok.exact_errors = rng.chance(1, 6);
             opts.tok.discard_bom = !rng.chance(1, 8);
@@ -553,6 +556,7 @@ pub fn run(args: &Args) -> (Meta, Stats) {
             opts.scripting = !rng.chance(1, 4);
             if rng.chance(1, 6) {
                 opts.context = Some(rng.pick(&contexts).clone());
+                opts.fragment_form = rng.chance(1, 4);
             }
             check_injection(&input, &opts, &mut rng, st);
         }
